@@ -13,7 +13,9 @@ RULE = ("random light-weight edge lists: N<=8 vertices incl. joint degree zero, 
         "and at least one vertex of degree zero or a repeated/reversed pair; distinct by full input")
 EXHAUSTIVE = {"quick": False, "thorough": False}
 EXPLANATION = ("general theorems for every edge list in Props/C04.v (network spec, checker soundness, round trip both "
-               "ways); correspondence on random and generator-produced lists; c04_check judges the real graph")
+               "ways; the meaning of the round-trip judge check_roundtrip as an equivalence; back conversion of EVERY "
+               "well-formed list incl. repeated / reversed pairs and self-loops; KeyError lemma for vertices >= N); "
+               "correspondence on random and generator-produced lists; c04_check judges the real graph")
 ASSUMPTIONS = ["networkx Graph.add_nodes_from/add_edges_from/set_node_attributes/set_edge_attributes/edges()/nodes() "
                "behave as modelled (their results are compared with the model on every case; their code is not verified)",
                "Python dict iteration = first-insertion order (modelled in dict_set/apply_dict)"]
@@ -23,11 +25,25 @@ LEVEL_TEXT = (
     "General theorems (coq/Props/C04.v): for every edge list the modelled network satisfies Spec_net (one vertex per "
     "jds entry incl. degree zero, annotation, edge iff pair occurs, a pair occurring once keeps its row's name and id); "
     "the executable checker check_net is sound for Spec_net; for every simple list the back conversion returns the "
-    "normalised list (same jds, same annotated edge set) and converting again gives the same network. The model is "
+    "normalised list (same jds, same annotated edge set) and converting again gives the same network. "
+    "Round-trip judge: check_roundtrip el el' = true <-> same jds, same number of rows and the same SET of normalised "
+    "annotated rows (C04_roundtrip_checker_iff); for simple el <-> same jds and the normalised rows are a permutation "
+    "of each other; it accepts the modelled back conversion of every simple list. "
+    "General round trip (C04_roundtrip_general, _general_spec): for EVERY list with parallel columns and vertices "
+    "below N (repeated and reversed pairs, self-loops allowed) the back conversion succeeds, returns the same joint "
+    "degree sequence and exactly one row per unordered pair of the list (normalised orientation, order of first "
+    "occurrence, no pair twice), carrying the attribute the network holds for the pair (final_attr), which is always "
+    "the name and id of one of the rows naming that pair and precisely the row's when the pair occurs once. "
+    "Error lemma (C04_back_conversion_error, C04_run_error): when an edge names a vertex >= N the back conversion "
+    "returns the model's KeyError value, whatever else the list contains. The model is "
     "tied to gcmpy/network/*.py by comparing node set, annotations, attributed edge set and the reverse conversion "
     "(or its exception) on random and generator-made lists; c04_check runs on the real networkx graph.")
 LEVEL_NOTE = ("Trusted: Coq kernel; extraction + OCaml driver + Python harness; networkx primitives modelled, not "
-              "verified (results compared on every case). No axioms.")
+              "verified (results compared on every case). No axioms. For lists with repeated pairs WHICH of the "
+              "competing rows' attributes survives is the modelled Python-dict order (final_attr; proved to be one of "
+              "them, C04_final_attr_is_a_row); the verified checker c04_check judges the real back conversion for "
+              "simple lists only - on non-simple lists the real back conversion is compared with the model's "
+              "(correspondence), about which the general theorems speak.")
 
 
 def corpus():
